@@ -64,6 +64,14 @@ type Env struct {
 	taps    map[int]*[2][]simnet.WriteEvent // pair id -> per-direction writes
 	hub     []simnet.HubEvent
 	OnPair  func(*simnet.StreamPair) // extra per-connection setup (chunkers, mutators)
+
+	// accept dispatch: one loop per env hands server-side sessions to whoever
+	// expects their session id; unclaimed ones are strays.
+	amu      sync.Mutex
+	waiters  map[string]chan net.Conn
+	early    map[string]net.Conn
+	strays   []string
+	accepted int
 }
 
 func usersMap(us []UserSpec) map[string]*appctlpb.User {
@@ -148,7 +156,65 @@ func NewEnv(cfg EnvCfg) (*Env, error) {
 	if err := e.Srv.Start(); err != nil {
 		return nil, err
 	}
+	e.waiters = map[string]chan net.Conn{}
+	e.early = map[string]net.Conn{}
+	go e.acceptLoop()
 	return e, nil
+}
+
+func (e *Env) acceptLoop() {
+	for {
+		c, err := e.Srv.Accept()
+		if err != nil {
+			return
+		}
+		id := sessionID(c)
+		e.amu.Lock()
+		e.accepted++
+		ch := e.waiters[id]
+		if ch != nil {
+			delete(e.waiters, id)
+		} else {
+			e.early[id] = c
+		}
+		e.amu.Unlock()
+		if ch != nil {
+			ch <- c
+			continue
+		}
+		go func() {
+			time.Sleep(2 * time.Second)
+			e.amu.Lock()
+			if _, still := e.early[id]; still {
+				delete(e.early, id)
+				e.strays = append(e.strays, c.RemoteAddr().String())
+			}
+			e.amu.Unlock()
+		}()
+	}
+}
+
+// Expect returns a channel on which the server-side session with this id
+// will be delivered once accepted.
+func (e *Env) Expect(id string) chan net.Conn {
+	ch := make(chan net.Conn, 1)
+	e.amu.Lock()
+	if c, ok := e.early[id]; ok {
+		delete(e.early, id)
+		ch <- c
+	} else {
+		e.waiters[id] = ch
+	}
+	e.amu.Unlock()
+	return ch
+}
+
+// Strays returns remote addresses of server-side sessions nobody expected,
+// and the total number of accepted sessions.
+func (e *Env) Strays() ([]string, int) {
+	e.amu.Lock()
+	defer e.amu.Unlock()
+	return append([]string(nil), e.strays...), e.accepted
 }
 
 // NewClient creates a client mux for user index ui at source ip (""=default).
